@@ -45,6 +45,18 @@ func GenPlainString() *rapid.Generator[string] {
 
 // GenMsg draws a message of any class.
 func GenMsg() *rapid.Generator[string] {
+	return rapid.Custom(func(t *rapid.T) string {
+		if rapid.IntRange(0, 79).Draw(t, "hugeMsg") == 0 {
+			// far beyond every buffer and size class: 70-300 KB, one or several lines
+			n := rapid.IntRange(70<<10, 300<<10).Draw(t, "hugeLen")
+			unit := rapid.SampledFrom([]string{"huge message ", "huge\nmulti-line message ", "h\u00fcge m\u00e9ssage \u4e16\u754c "}).Draw(t, "hugeUnit")
+			return strings.Repeat(unit, n/len(unit)+1)
+		}
+		return genMsgOrdinary().Draw(t, "m")
+	})
+}
+
+func genMsgOrdinary() *rapid.Generator[string] {
 	return rapid.OneOf(
 		rapid.StringMatching(`[a-z]{1,8}( [a-z]{1,8}){0,4}`),
 		GenAnyString(),
